@@ -780,7 +780,7 @@ mod tests {
         let seed = crate::util::miri_seed();
         let mut m = crate::util::test_monitor("C34", seed);
         let mut rng = Rng::derive(seed, 0, 3400);
-        let n = crate::util::miri_cases(80) as usize;
+        let n = crate::util::miri_cases(40) as usize;
         small::<ST1>(&mut m, &mut rng, n);
         small::<ST2>(&mut m, &mut rng, n);
         small::<ST3>(&mut m, &mut rng, n);
